@@ -66,6 +66,14 @@ func cliDirectedDocs() [][]*model.Value {
 		}
 		cliDocs = append(cliDocs, nulls, []*model.Value{model.ListV(model.CloneAll(nulls)...)})
 		cliDocs = append(cliDocs, LookalikeStreams()...)
+		// the empty document (standard input may be /dev/null)
+		cliDocs = append(cliDocs, []*model.Value{})
+		// more top-level values than any plausible batch size (65536)
+		many := make([]*model.Value, 0, 70001)
+		for i := 0; i < 70000; i++ {
+			many = append(many, model.Int64V(int64(i%1000)))
+		}
+		cliDocs = append(cliDocs, append(many, model.SymV(model.T("last"))))
 		// single scalars larger than any plausible output buffer (32 KiB, 64 KiB), between small values
 		for _, n := range []int{32767, 32768, 40000, 70000} {
 			digits := strings.Repeat("1234567890", n/10+1)[:n]
